@@ -33,7 +33,7 @@ Proof.
   destruct (by_opcodes udiff nos (ops q xs ys) xs ys q q) as [|e [|e2 es']] eqn:Ees; [| |cbn in Len; lia].
   - (* nothing reported: the sequences coincide *)
     pose proof (bo_nil udiff q xs ys Ax Ay AF _ 0 0 Tl HB Ees) as E0. cbn [skipn] in E0. subst ys.
-    apply GoodD_GoodD0; [apply wf_sroot; exact Ax|]. apply good_empty.
+    split; [reflexivity|]. apply runs_inplace; try reflexivity. apply veqb_refl. apply wf_sroot. exact Ax.
   - destruct (bo_one udiff q xs ys Ax Ay AF _ 0 e Tl HB Ees) as (P & X & Y & Sx & Hx & Hy & Sh).
     cbn [skipn Nat.add] in Hx, Hy, Sh. subst xs ys.
     destruct Sh as [(x & -> & -> & ->)|[(y & -> & -> & ->)|(a & b & -> & -> & Hd)]].
@@ -154,7 +154,7 @@ Proof.
         -- intros k x y Hx Hy. pose proof (nth_error_In _ _ Hx) as Ix. pose proof (nth_error_In _ _ Hy) as Iy.
            eapply forallb_forall in Ax; [|exact Ix]. eapply forallb_forall in Ay; [|exact Iy].
            destruct x as [a| | | | |]; try discriminate. destruct y as [b| | | | |]; try discriminate.
-           apply Good_atom. intros _. apply tc_guard_atoms. exact Hconv.
+           apply Good_atom.
     + cbn [fst snd]. apply caseC; try assumption.
   - cbn [fst snd]. apply caseA; try assumption.
     apply Nat.ltb_ge in L1. exact L1.
